@@ -7,7 +7,7 @@ From Coq Require Import List Arith NArith Bool String.
 From Verif Require Import Lib.Sched Kv.KeyOrd Kv.AList Kv.Spec Kv.Mem Kv.Sql Kv.Skel Kv.Refine
   Kv.Facts Kv.SeqFacts Kv.KvGen Kv.KvCorr Kv.Atomic Kv.AtomicSql Kv.AtomicCor Kv.AtomicCorr
   Kv.AtomicPg Kv.AtomicGen Gen.KvSql Gen.KvMemSkel.
-From Verif Require Import Kv.Retry Gen.KvRetry.
+From Verif Require Import Kv.Retry Gen.KvRetry Kv.AppendStmts.
 Import ListNotations.
 
 Notation mreachable := (Sched.reachable table loc result).
@@ -178,6 +178,35 @@ Print Assumptions C06_mutate_sees_stored_value_only.
 Theorem C06_mutate_shape : mshape_ok gen_mutate_shape = true.
 Proof. exact gen_mutate_target_ok. Qed.
 Print Assumptions C06_mutate_shape.
+
+(** ** AppendBytes, statement by statement
+
+    The SQL concurrency model runs AppendBytes as one atomic step; it is one
+    autocommit statement in the source ([C06_append_statements]).  For a
+    single-statement upsert the interleavings of the calls are the orders in
+    which the statements run, and in every order the value holds every
+    appended token exactly once after what was there - also from an absent
+    key. *)
+Theorem C06_append_single_statement_atomic : forall (tokens order : list bytes) (s : cell),
+  Permutation.Permutation order tokens ->
+  run_upserts order s
+  = match s, order with
+    | None, [] => None
+    | _, _ => Some (match s with Some x => x | None => [] end ++ List.concat order)
+    end /\
+  Permutation.Permutation order tokens.
+Proof. exact single_statement_append_atomic. Qed.
+Print Assumptions C06_append_single_statement_atomic.
+
+Theorem C06_append_statements :
+  append_statements gen_sqlite_methods = [SInsert [CK; CV; CC] OcAppendV] /\
+  append_statements gen_psql_methods = [SInsert [CK; CV; CC] OcAppendV] /\
+  method_evs gen_sqlite_methods "appendBytes"
+  = [ECall HDb FX (SInsert [CK; CV; CC] OcAppendV) [GTable; GTable] [GK; GBs; GEmpty]; ERet "err"] /\
+  method_evs gen_psql_methods "appendBytes"
+  = [ECall HDb FX (SInsert [CK; CV; CC] OcAppendV) [GTable; GTable] [GK; GBs; GEmpty]; ERet "err"].
+Proof. exact gen_sqlite_append_statements. Qed.
+Print Assumptions C06_append_statements.
 
 (** concurrent Removes of one key: exactly the first to take effect succeeds *)
 Theorem C06_mem_remove_once : forall bprog m0 cfg k e,
@@ -515,3 +544,18 @@ Example C06_reused_target_refuted :
   attempts retrying_shape g [] [[97; 98]; [97]]%N = ([[97; 98]; [97; 98; 99]], [97; 98; 99])%N /\
   attempts (mkMShape false true) g [] [[97; 98]; [97]]%N = ([[97; 98]; [97]], [97; 99])%N.
 Proof. exact reused_target_refuted. Qed.
+
+(** update, then emplace when no row was affected: two callers on an absent
+    key, both updates before either emplace - both calls return nil, one
+    token is gone; on an existing key the same code is harmless *)
+Example C06_update_then_emplace_refuted :
+  let tokens := [[49]; [50]]%N in
+  let '(pcs, s) := run2 tokens [0; 1; 0; 1]%nat None in
+  all_done pcs = true /\ s = Some [49]%N /\
+  run_upserts [[49]; [50]]%N None = Some [49; 50]%N /\ run_upserts [[50]; [49]]%N None = Some [50; 49]%N.
+Proof. exact update_then_emplace_refuted. Qed.
+
+Example C06_update_then_emplace_existing_ok :
+  let tokens := [[49]; [50]]%N in
+  snd (run2 tokens [0; 1; 0; 1]%nat (Some [48]%N)) = Some [48; 49; 50]%N.
+Proof. exact update_then_emplace_existing_ok. Qed.
